@@ -40,7 +40,7 @@ Definition fse_weights (src : bytes) : res (list N) :=
   do r <- read_ncount 255 6 src;
   let '(log, counts, used) := r in
   do t <- build_dtable log counts;
-  let body := skipn (N.to_nat used) src in
+  let body := skipN src used in
   do s0 <- of_opt (rbits_open body) Eformat 201;
   do r1 <- of_opt (fse_init t s0) Eformat 202;
   let '(st1, s1) := r1 in
@@ -61,7 +61,7 @@ Definition read_huf_weights (maxLog : N) (src : bytes) : res (list N * N * N) :=
                do ws <- of_opt (direct_weights (N.to_nat n) rest) Etrunc 211;
                Ok (ws, (n + 1) / 2 + 1)
              else
-               do sp <- of_opt (splitn (N.to_nat hb) rest) Etrunc 212;
+               do sp <- of_opt (splitN hb rest) Etrunc 212;
                do ws <- fse_weights (fst sp);
                Ok (ws, hb + 1));
     let '(ws, used) := r in
@@ -169,9 +169,9 @@ Definition huf_decode4 (t : htree) (n : N) (src : bytes) : res (list N) :=
   let l3 := le_val (skipn 4 jt) in
   let seg := (n + 3) / 4 in
   check (3 * seg <=? n) else Eformat @ 233;
-  do a <- of_opt (splitn (N.to_nat l1) body) Eformat 234;
-  do b <- of_opt (splitn (N.to_nat l2) (snd a)) Eformat 235;
-  do c <- of_opt (splitn (N.to_nat l3) (snd b)) Eformat 236;
+  do a <- of_opt (splitN l1 body) Eformat 234;
+  do b <- of_opt (splitN l2 (snd a)) Eformat 235;
+  do c <- of_opt (splitN l3 (snd b)) Eformat 236;
   do o1 <- huf_stream t seg (fst a) [];
   do o2 <- huf_stream t seg (fst b) o1;
   do o3 <- huf_stream t seg (fst c) o2;
